@@ -13,6 +13,27 @@ pub fn in_known_hang_class(case: &LinCase, truth: &Verdict) -> bool {
         && has_free_var(case)
 }
 
+/// Either of the two instance classes on which a microlp-based solver may never return. Used to
+/// exclude the recorded finding by construction: once a few calls of a run have really hung
+/// (`VERIF_HANG_PROBES`, default 8), further instances of the classes are not handed to those
+/// solvers any more and are counted instead, because a hung call cannot be cancelled and burns a
+/// core for the rest of the run.
+pub fn hang_prone(case: &LinCase, truth: &Verdict) -> bool {
+    if !has_free_var(case) {
+        return false;
+    }
+    match truth {
+        Verdict::Unbounded => in_known_hang_class(case, truth),
+        Verdict::Optimal { value, .. } => optimal_face_unbounded(case, value),
+        _ => false,
+    }
+}
+
+/// true when the class is to be skipped now (enough hangs were observed in this run)
+pub fn skip_hang_prone(case: &LinCase, truth: &Verdict) -> bool {
+    hang_prone(case, truth) && crate::props::solvers::LEAKED.load(std::sync::atomic::Ordering::SeqCst) >= probe_limit()
+}
+
 /// Characterises the two instance classes on which the microlp dependency is known to misbehave
 /// (see known_findings.json). The suffix is only attached to the answers those defects produce, so
 /// any other wrong answer on the same instances, and the same answers elsewhere, stay unknown.
@@ -266,14 +287,11 @@ impl Prop for C05 {
         let mut answered = 0;
         let mut fails: Vec<(String, String)> = vec![];
         for w in ALL {
-            if matches!(w, Which::Milp | Which::Auto) && in_known_hang_class(case, &truth) {
-                // Known finding (microlp never returns on some of these): probe a few per run so the
-                // finding is re-observed, exclude the rest by construction and count them.
-                // the class is excluded only once several calls of this run really never returned
-                if crate::props::solvers::LEAKED.load(std::sync::atomic::Ordering::SeqCst) >= probe_limit() {
-                    labels.push(format!("{}:excluded-known-hang-class", w.name()));
-                    continue;
-                }
+            if matches!(w, Which::Milp | Which::Auto | Which::RealMicro) && skip_hang_prone(case, &truth) {
+                // Known finding (microlp never returns on some of these): a few per run are probed so
+                // the finding is re-observed, the rest is excluded by construction and counted.
+                labels.push(format!("{}:excluded-known-hang-class", w.name()));
+                continue;
             }
             let ans = solve(w, &model);
             let got = match &ans {
